@@ -9,7 +9,8 @@ class PyxError(Exception):
 
 
 TYPE = r'(?:DTYPE_t|double)'
-MATH = {'fabs': 'abs', 'sqrt': 'np.sqrt', 'cos': 'np.cos', 'sin': 'np.sin', 'acos': 'np.arccos', 'atan2': 'np.arctan2', 'fmod': 'np.fmod'}
+MATH = {'fabs': 'abs', 'sqrt': 'np.sqrt', 'cos': 'np.cos', 'sin': 'np.sin', 'acos': 'np.arccos', 'atan2': 'np.arctan2', 'fmod': 'np.fmod',
+        'exp': 'np.exp', 'log': 'np.log'}
 
 
 def find_function(text, name):
@@ -65,6 +66,8 @@ def kernel_to_python(text, name, returns, consts):
         if not code.strip():
             continue
         code = code.rstrip(';')
+        if re.match(r'^\s*cdef\s+%s\s+[\w\s,]+$' % TYPE, code):
+            continue          # declaration without initialiser
         code = re.sub(r'^(\s*)cdef\s+%s\s+' % TYPE, r'\1', code)
         if re.match(r'^\s*(cdef|with|for|while|try|except|raise|import|from)\b', code):
             raise PyxError('statement outside the fragment in %s: %r' % (name, code.strip()))
@@ -78,7 +81,10 @@ def kernel_to_python(text, name, returns, consts):
         for k, v in consts.items():
             code = re.sub(r'(?<![\w.])%s\b' % re.escape(k), '(%s)' % v, code)
         if re.match(r'^\s*return\b', code):
+            if returns is None:
+                out.append(code)
             continue
         out.append(code)
-    out.append('    return %s' % ', '.join(returns))
+    if returns is not None:
+        out.append('    return %s' % ', '.join(returns))
     return '\n'.join(out) + '\n'
